@@ -93,6 +93,7 @@ def effective_guards(fl: Flow, res: Resolver, fn: ast.AST, node: ast.AST, depth:
             if not defs:
                 continue
             cands: List[Set[Tuple[str, bool]]] = []
+            alias_facts: Set[Tuple[str, bool]] = set()
             for d in defs:
                 if not (len(d.targets) == 1 and isinstance(d.targets[0], ast.Name)):
                     cands.append(set())
@@ -107,11 +108,24 @@ def effective_guards(fl: Flow, res: Resolver, fn: ast.AST, node: ast.AST, depth:
                         continue
                     if _may(v, want) is False:
                         continue
-                    cands.append(base | extra)
+                    facts = base | extra
+                    # `x = y`: what is known about y at the assignment is known about x afterwards
+                    if isinstance(v, (ast.Name, ast.Attribute, ast.Subscript)):
+                        vt = canon_atom(res, v, True)[0]
+                        vraw = ast.unparse(v)
+                        import re as _re
+                        moved = set()
+                        for k, p in facts:
+                            for t in {vt, vraw}:
+                                if _re.search(r"(?<![\w.])" + _re.escape(t) + r"(?![\w(])", k):
+                                    moved.add((_re.sub(r"(?<![\w.])" + _re.escape(t) + r"(?![\w(])", var, k), p))
+                        facts = facts | moved
+                        alias_facts |= moved
+                    cands.append(facts)
             if not cands:
                 continue
             common = set.intersection(*cands)
-            new = {(k, p) for k, p in common if var not in {x.id for x in ast.walk(parse_key(k)) if isinstance(x, ast.Name)}}
+            new = {(k, p) for k, p in common if (k, p) in alias_facts or var not in {x.id for x in ast.walk(parse_key(k)) if isinstance(x, ast.Name)}}
             if new - gs:
                 gs |= new
                 added = True
